@@ -480,7 +480,14 @@ def run(ctx):
             open(hpath, 'w').write(json.dumps({'type': 'Feature', 'properties': {}, 'geometry': mapping(half)}))
             wide.append((hpath, half))
             chosen = (clip_args + wide) if not quick else rng.sample(clip_args, 2) + [wide[n % len(wide)]]
+            # a region file that is edited between two commands (the same name, another region): each command reads the file as it
+            # is when the command runs
+            epath = os.path.join(tmp, f'region_{n}.geojson')
+            chosen = chosen + [(epath, tri), (epath, box(x0, y0, x1, y1))]
             for arg, geom in chosen:
+                if arg == epath:
+                    open(epath, 'w').write(json.dumps(mapping(geom)))
+                    ctx.count('clip:region file rewritten between commands')
                 out = os.path.join(tmp, f'cli_clip_{n}.nc')
                 if os.path.exists(out):
                     os.remove(out)
@@ -488,7 +495,7 @@ def run(ctx):
                 case = {'dataset': label, 'command': ['clip', '<in>', arg if not arg.startswith(tmp) else '<geojson file>', '<out>']}
                 ctx.case((label, 'clip', arg), True)
                 ctx.count('clip:' + ('bounds' if geom.equals(box(x0, y0, x1, y1)) and ',' in arg and '{' not in arg else
-                                     'geojson_file' if arg in (gpath, hpath) else 'geojson_string'))
+                                     'geojson_file' if arg in (gpath, hpath, epath) else 'geojson_string'))
                 ctx.count(f'clip:region bounding box encloses the model:{geom.envelope.covers(box(min(xs), min(ys), max(xs), max(ys)))}')
                 work = tempfile.mkdtemp(prefix='clipwork_', dir=tmp)
                 with warnings.catch_warnings():
